@@ -5,7 +5,8 @@ import json, os, select, signal, subprocess, sys, time, multiprocessing
 
 VERIF = os.path.dirname(os.path.dirname(os.path.abspath(__file__)))
 MC_BIN = os.environ.get("VERIF_MC_BIN") or "/verif/.build/release/mc"        # absolute: mc/.cargo/config.toml sets target-dir=/verif/.build (also used from vp-run snapshots)
-RULES = "/repo/Rules"
+RULES = os.environ.get("VERIF_RULES") or "/repo/Rules"            # bin/check points this at a private snapshot of /repo/Rules taken right after the build
+SRC = os.environ.get("VERIF_SRC") or "/repo/src"                  # likewise for the sources some oracles read (operator dictionary, entity table, preference defaults, panic lines)
 WORK = "/verif/.work"
 HOME = os.path.join(WORK, "home")          # empty: the library reads ~/.config/MathCAT/prefs.yaml
 
